@@ -116,7 +116,22 @@ pub fn judge(rep: &mut Report, c: &Case) {
 }
 
 pub fn explore(ctx: &Ctx, shard: usize, n: usize) -> Report {
-    drive::cases(ctx, shard, n, RULE, 0x12, 40_000, 20_000_000, |r, rep, _| { let c = gen(r); judge(rep, &c); })
+    let mut rep = drive::cases(ctx, shard, n, RULE, 0x12, 40_000, 20_000_000, |r, rep, _| { let c = gen(r); judge(rep, &c); });
+    // group letters against the manual's matrices on EVERY single segment the notation can write (base + <= 1 diacritic; + <= 2 in
+    // the thorough tier): the two only differ on segments that ordinary words do not contain (a nasalised lateral, a lowered nasal ...)
+    let segs = single_segments(ctx.pick(1, 2) as usize);
+    for g in GROUPS {
+        let (Ok(short), Ok(long)) = (compile(&[format!("{g} > [+stress]")]), compile(&[format!("{} > [+stress]", group_matrix(g))])) else { rep.violation(format!("group-letter:{g}:one-form-is-rejected"), || json!({"case": {"family": format!("group-letter:{g}"), "short": [format!("{g} > [+stress]")], "long": [format!("{} > [+stress]", group_matrix(g))], "words": []}})); continue };
+        for (k, (t, w)) in segs.iter().enumerate() {
+            if k % n != shard { continue }
+            rep.eval(1);
+            let (a, b) = (apply(&short, w), apply(&long, w));
+            let same = match (&a, &b) { (Applied::Ok(x), Applied::Ok(y)) => x == y, (Applied::Err(_), Applied::Err(_)) => true, (Applied::Abort(_), _) | (_, Applied::Abort(_)) => true, _ => false };
+            if !same { let t2 = t.clone(); rep.violation(format!("group-letter:{g}:segment-sweep"), || json!({"case": {"family": format!("group-letter:{g}"), "short": [format!("{g} > [+stress]")], "long": [format!("{} > [+stress]", group_matrix(g))], "words": [t2]}, "observed": format!("short: {} / long: {}", a.tag(), b.tag())})); }
+            else if let Applied::Ok(x) = &a { if x != w { rep.nontrivial_enum(1); } }
+        }
+    }
+    rep
 }
 pub fn replay(_ctx: &Ctx, v: &Value) -> Report {
     let mut rep = Report::new(RULE);
